@@ -35,6 +35,11 @@ def Inv (s : Stream) : Prop := 0 ≤ s.pos ∧ s.pos ≤ (s.bits.length : Int)
 
 instance (s : Stream) : Decidable (Inv s) := by unfold Inv; infer_instance
 
+/-- SPEC of the documented rule for deletion / slice assignment / replace: pos = 0 if the length changed,
+    otherwise pos is where it was. -/
+def lenRule (s : Stream) (x : Stream × Res) : Prop :=
+  x.1.pos = if x.1.bits.length ≠ s.bits.length then 0 else s.pos
+
 /-! ## Python list surgery (SPEC of bitarray slicing with step 1) -/
 
 /-- `l[a:b]` for Python ints `a`, `b` (negative = from the end, clamped). -/
@@ -91,6 +96,11 @@ inductive Tok where
 inductive Val where
   | int (i : Int) | str (s : String) | stream (b : Bits) (pos : Int) | bool (b : Bool) | none | bytes (b : Bits)
   deriving Repr, DecidableEq
+
+/-- SPEC: a returned stream object, if the value is one, starts at position 0. -/
+def Val.posZero : Val → Prop
+  | .stream _ p => p = 0
+  | _ => True
 
 def hexDigits : Bits → List Char
   | a :: b :: c :: d :: rest => Nat.digitChar (bitsToNat [a, b, c, d]) :: hexDigits rest
@@ -501,9 +511,9 @@ def stepCore (s : Stream) (op : Op) : Stream × Res :=
     | _ => (s, .err .read)
   | .bytealign =>
     let skipped := (8 - s.pos % 8) % 8
-    match setBitPos s (s.pos + skipped) with
-    | (s', .unit) => (s', .val (.int skipped))
-    | (s', r) => (s', r)
+    let p := s.pos + skipped                                    -- `self.pos += skipped` goes through _setbitpos
+    if p < 0 then (s, .err .value) else if p > s.len then (s, .err .value)
+    else ({ s with pos := p }, .val (.int skipped))
   | .setPos n => setBitPos s n
   | .getBytePos => if s.pos % 8 ≠ 0 then (s, .err .byteAlign) else (s, .val (.int (s.pos / 8)))
   | .setBytePos n => setBitPos s (n * 8)
